@@ -45,7 +45,7 @@ ASSUMPTIONS = ["memo caches start empty at the beginning of each history; the hi
                "hash(Sym) constant / == decided by the solver: dict, set, lru_cache and dataclass equality are modelled as semantic equality",
                "a referenced sub-circuit is compared through the start/end the library reports for it (its duration is C04's subject)"]
 REQUIRED_REACH = ['C01.end', 'C01.followed_by', 'C01.joined_start', 'C01.joined_end', 'C01.first', 'C01.implicit',
-                  'C01.unrolled.link', 'C01.unrolled.end']
+                  'C01.unrolled.link', 'C01.unrolled.end', 'C01.unrolled.group']
 EXHAUSTIVE = {'quick': False, 'thorough': False}
 JOB_OPTS = {'quick': dict(max_paths=6000, max_seconds=400), 'thorough': dict(max_paths=30000, max_seconds=1200)}
 
@@ -54,8 +54,60 @@ ALPHA_W = [['W', 0, 'ALL'], ['W', 1, 'ALL'], ['W', 0, 'MW']]
 ALPHA_IN = [['W', 0, 'ALL'], ['W', 1, 'ALL'], ['G', 'Rx180', [0]]]
 
 
+def _st(k, rel=None):
+    return {'k': k, 'rel': rel}
+
+
+def _sub(steps, rep=1):
+    return ['S', {'steps': steps, 'rep': rep}]
+
+
+# repeated blocks whose latest-ending leaf is itself a repeated block (the ranking of the leaves changes while unrolling)
+NESTED_REPS = [
+    {'steps': [_st(_sub([_st(['W', 0, 'ALL']), _st(_sub([_st(['W', 1, 'ALL'])], 3))], 2))]},
+    {'steps': [_st(_sub([_st(_sub([_st(['W', 1, 'ALL'])], 2)), _st(['W', 0, 'ALL'])], 2)), _st(['W', 0, 'MW'])]},
+    {'steps': [_st(['W', 1, 'ALL']), _st(_sub([_st(['W', 0, 'ALL']), _st(_sub([_st(['W', 1, 'ALL']), _st(['W', 1, 'ALL'])], 2), ['S', 0])], 3))]},
+    {'steps': [_st(_sub([_st(['W', 0, 'ALL']), _st(['W', 1, 'ALL']), _st(_sub([_st(['G', 'Rx180', [2]])], 2))], 2))]},
+]
+
+
+ALPHA_P = [['W', 0, 'ALL'], ['W', 1, 'ALL'], ['W', 0, 'MW'], ['W', 1, 'FL'], ['W', 2, 'ALL'], ['G', 'Rx180', [0]]]
+LAST_P = [['G', 'CPhase', [0, 1]], ['W', 0, 'ALL'], ['W', 0, 'FL'], ['B', [0, 1]]]
+
+
+def placement_programs(n_prefix):
+    """Programs whose last step is added without relation where the implicit-placement rule has something to decide: the deepest
+    channel-sharing earlier step is *not* a leaf of the relation graph and a shallower channel-sharing leaf exists (statically
+    selected from all FOLLOWED_BY/no-relation prefixes of n_prefix steps over ALPHA_P)."""
+    for pre in gen.flat_programs(n_prefix, ALPHA_P, types='F'):
+        nodes = [cm.Node(st, (i,)) for i, st in enumerate(pre['steps'])]
+        depth = cm.relation_depths(nodes)
+        succ = [False] * len(nodes)
+        tie = False
+        for i, n in enumerate(nodes):
+            if n.rel is not None:
+                succ[n.rel[1]] = True
+            else:
+                pr = cm.implicit_predecessors(nodes, i, depth)
+                tie = tie or len(pr) > 1
+                for j in pr:
+                    succ[j] = True
+        if tie:
+            continue
+        for last in LAST_P:
+            ln = cm.Node({'k': last, 'rel': None}, (len(nodes),))
+            alln = nodes + [ln]
+            d2 = cm.relation_depths(alln)
+            pr = cm.implicit_predecessors(alln, len(nodes), d2)
+            if len(pr) != 1 or not succ[pr[0]]:
+                continue
+            if any((not succ[j]) and d2[j] < d2[pr[0]] and cm.channels_overlap(nodes[j].qubit_channels(), ln.qubit_channels()) for j in range(len(nodes))):
+                yield {'steps': pre['steps'] + [{'k': last, 'rel': None}]}
+
+
 def jobs(tier, seed):
-    out = []
+    out = [{'prog': p} for p in NESTED_REPS]
+    out += [{'prog': p} for p in gen.sample(placement_programs(4), 1500 if tier == 'quick' else 100000, seed + 7)]
     if tier == 'quick':
         out += [{'prog': p} for p in gen.programs_upto(2, ALPHA)]
         out += [{'prog': p} for p in gen.sample(gen.flat_programs(3, ALPHA), 2500, seed)]
@@ -129,6 +181,12 @@ def check_links(ctx, ops, prefix):
         t = link.relation_type
         rs, re, _ = cm.times(ref)
         info = {'index': k, 'start': s, 'end': e, 'ref_start': rs, 'ref_end': re, 'relation': t.name, 'link': type(link).__name__}
+        group = getattr(link, '_reference_nodes', None)
+        if group:
+            # a copy chained behind a group of leaves: the reference is whichever member ends last *now* -- taken from the
+            # group itself, not from what reference_node answers
+            latest = cm.smax([x.end_time for x in group])
+            ctx.check(f'{prefix}.group', re == latest, dict(info, group_ends=[x.end_time for x in group], latest_group_end=latest))
         if t == RelationType.FOLLOWED_BY:
             ctx.check(f'{prefix}.link', s == re, info)
         elif t == RelationType.JOINED_START:
